@@ -1051,9 +1051,9 @@ impl CasObject {
         // 2. walk chunks from Info
         let mut hash_chunks: Vec<Chunk> = Vec::new();
         let mut cumulative_compressed_length: u32 = 0;
-        let mut unpacked_chunk_offset = 0;
+        let mut unpacked_chunk_offset: u32 = 0;
 
-        let mut start_offset = 0;
+        let mut start_offset: u32 = 0;
         // Validate each chunk: iterate chunks, deserialize chunk, compare stored hash with
         // computed hash, store chunk hashes for cashash validation
         for idx in 0..cas.info.num_chunks {
@@ -1072,8 +1072,17 @@ impl CasObject {
                 length: chunk_uncompressed_length as usize,
             });
 
-            cumulative_compressed_length += compressed_chunk_length as u32;
-            unpacked_chunk_offset += chunk_uncompressed_length;
+            // The format stores these sums in 32 bits; an object whose chunks exceed that cannot be
+            // described by any Info and is rejected.
+            let (Some(compressed_sum), Some(unpacked_sum)) = (
+                cumulative_compressed_length.checked_add(compressed_chunk_length as u32),
+                unpacked_chunk_offset.checked_add(chunk_uncompressed_length),
+            ) else {
+                warn!("XORB Validation: Chunk lengths exceed the 32 bit offsets of the format.");
+                return Ok(None);
+            };
+            cumulative_compressed_length = compressed_sum;
+            unpacked_chunk_offset = unpacked_sum;
 
             // verify chunk hash
             if *cas.info.chunk_hashes.get(idx as usize).unwrap() != chunk_hash {
@@ -1084,7 +1093,7 @@ impl CasObject {
             let boundary = *cas.info.chunk_boundary_offsets.get(idx as usize).unwrap();
 
             // verify that cas.chunk[n].len + 1 == cas.chunk_boundary_offsets[n]
-            if (start_offset + compressed_chunk_length as u32) != boundary {
+            if start_offset.checked_add(compressed_chunk_length as u32) != Some(boundary) {
                 warn!("XORB Validation: Chunk boundary byte index does not match Info object.");
                 return Ok(None);
             }
@@ -1103,11 +1112,12 @@ impl CasObject {
 
         // validate that Info/footer begins immediately after final content xorb.
         // end of for loop completes the content chunks, now should be able to deserialize an Info directly
-        let cur_position = reader.stream_position()? as u32;
-        let expected_position = cumulative_compressed_length;
-        let expected_from_end_position =
-            reader.seek(std::io::SeekFrom::End(0))? as u32 - cas.info_length - size_of::<u32>() as u32;
-        if cur_position != expected_position || cur_position != expected_from_end_position {
+        let cur_position = reader.stream_position()?;
+        let expected_position = cumulative_compressed_length as u64;
+        let expected_from_end_position = reader
+            .seek(std::io::SeekFrom::End(0))?
+            .checked_sub(cas.info_length as u64 + size_of::<u32>() as u64);
+        if cur_position != expected_position || Some(cur_position) != expected_from_end_position {
             warn!("XORB Validation: Content bytes after known chunks in Info object.");
             return Ok(None);
         }
